@@ -4,7 +4,7 @@
 From Coq Require Import List ZArith Lia Bool Arith.
 Import ListNotations.
 Require Import C01.Sums C01.Batch C01.Tensor C01.OpExpr C01.Model C01.Covered.
-Require Import C01.ProofsBase C01.ProofsAlg C01.ProofsKron C01.ProofsStruct C01.ProofsMore C01.ProofsPerm C01.ProofsRepeat C01.ProofsMul C01.ProofsSize.
+Require Import C01.ProofsBase C01.ProofsAlg C01.ProofsKron C01.ProofsStruct C01.ProofsMore C01.ProofsPerm C01.ProofsRepeat C01.ProofsMul C01.ProofsSize C01.ProofsCatBatch.
 Open Scope Z_scope.
 
 (* f acts as D and D is symmetric: f acts as the transpose too *)
@@ -249,6 +249,48 @@ Proof.
     rewrite (sz_correct y (wfb_all_in _ y HW Hy)). reflexivity.
 Qed.
 
+(* concatenation along a batch dimension (cat_dim < -2): expand, narrow per piece, multiply, torch.cat *)
+Lemma acts_cat_batchdir (tf : bool) p x ops :
+  wf (Cat (x :: ops) (CatBatch p)) ->
+  forallb (fun y => pos (nth p (bsh (denote y)) 0%nat)) (x :: ops) = true ->
+  (forall y, In y (x :: ops) -> forall t, acts (mm t y) (mt t (denote y))) ->
+  acts (mm tf (Cat (x :: ops) (CatBatch p))) (mt tf (dcat (map denote (x :: ops)) (CatBatch p))).
+Proof.
+  intros HW HPos HA. pose proof HW as HW0. unfold wf in HW. cbn [wfb] in HW.
+  destruct ops as [|x2 ops]; [rewrite andb_false_r in HW; discriminate|].
+  set (L := x :: x2 :: ops) in *.
+  apply andb_true_iff in HW. destruct HW as [HWl HW]. apply andb_true_iff in HW. destruct HW as [HP HS].
+  apply Nat.ltb_lt in HP.
+  assert (HS' : forall y, In y L -> bset (bsh (denote y)) p 0%nat = bset (bsh (denote x)) p 0%nat /\
+                                    nr (denote y) = nr (denote x) /\ nc (denote y) = nc (denote x)).
+  { intros y [<-|Hy]; [auto|]. rewrite forallb_forall in HS. specialize (HS y Hy). bsplit. auto. }
+  assert (HLen : forall y, In y L -> nth p (sz_b (sz y)) 0%nat = nth p (bsh (denote y)) 0%nat /\ (0 < nth p (bsh (denote y)) 0)%nat).
+  { intros y Hy. rewrite (sz_correct y (wfb_all_in L y HWl Hy)). split; [reflexivity|].
+    rewrite forallb_forall in HPos. specialize (HPos y Hy). unfold pos in HPos. apply Nat.ltb_lt in HPos. exact HPos. }
+  destruct tf.
+  - (* the transposed object keeps the concatenated batch dimension *)
+    eapply acts_eq; [apply BTeq_sym; apply (dtr_dcat_batch p (denote x) (map denote (x2 :: ops)))|].
+    change (map dtr (denote x :: map denote (x2 :: ops))) with (map dtr (map denote L)). rewrite (map_map denote dtr).
+    assert (ESZ : sz_b (sz (Cat L (CatBatch p))) = bsh (dcat (map (fun y => dtr (denote y)) L) (CatBatch p))).
+    { rewrite (sz_correct _ HW0). unfold shp, sz_b. cbn [fst denote dcat L map bsh dtr]. rewrite !map_map. reflexivity. }
+    intros X HX.
+    change (mm true (Cat L (CatBatch p)) X)
+      with (dcat (bpieces (mm true) (fun y => nth p (sz_b (sz y)) 0%nat) p (dexpand (bcast (sz_b (sz (Cat L (CatBatch p)))) (bsh X)) X) L 0) (CatBatch p)).
+    rewrite ESZ. revert X HX.
+    apply (acts_cat_batch (mm true) (fun y => dtr (denote y)) (fun y => nth p (sz_b (sz y)) 0%nat) p x (x2 :: ops)); [exact HP|simpl; lia|].
+    intros y Hy. destruct (HS' y Hy) as (s1 & s2 & s3). destruct (HLen y Hy) as (l1 & l2).
+    split; [apply (HA y Hy true)|]. cbn [dtr bsh nr nc]. unfold bdim. cbn [dtr bsh]. rewrite l1. auto.
+  - assert (ESZ : sz_b (sz (Cat L (CatBatch p))) = bsh (dcat (map denote L) (CatBatch p))).
+    { rewrite (sz_correct _ HW0). reflexivity. }
+    intros X HX.
+    change (mm false (Cat L (CatBatch p)) X)
+      with (dcat (bpieces (mm false) (fun y => nth p (sz_b (sz y)) 0%nat) p (dexpand (bcast (sz_b (sz (Cat L (CatBatch p)))) (bsh X)) X) L 0) (CatBatch p)).
+    rewrite ESZ. revert X HX.
+    apply (acts_cat_batch (mm false) denote (fun y => nth p (sz_b (sz y)) 0%nat) p x (x2 :: ops)); [exact HP|simpl; lia|].
+    intros y Hy. destruct (HS' y Hy) as (s1 & s2 & s3). destruct (HLen y Hy) as (l1 & l2).
+    split; [apply (HA y Hy false)|]. unfold bdim. rewrite l1. auto.
+Qed.
+
 (* ---- Hadamard products of root-form operands ------------------------------------------------------ *)
 
 Lemma simple_root_denote e : simple_root e = true ->
@@ -380,18 +422,25 @@ Proof.
     eapply acts_eq; [|apply (acts_sumbatch (mm tf e) (mt tf (denote e)) k bs); [rewrite mt_shape; exact HS|assumption|useih]].
     destruct tf; simpl; [apply BTeq_sym; apply dtr_dsumbatch|apply BTeq_refl].
   - (* BatchRepeat *) ihs. intros X HX. cbn [mm denote sz]. rewrite (sz_correct e) by assumption. unfold shp, sz_b, sz_m, sz_n. cbn [fst snd].
-    match goal with HSq : nr (denote e) = nc (denote e) |- _ => rewrite HSq end. rewrite Nat.eqb_refl.
     assert (HA : acts (mm tf e) (mt tf (denote e))) by useih.
-    pose proof (acts_batchrepeat_square (mm tf e) (mt tf (denote e)) rep HA) as HL.
-    rewrite mt_shape in HL. specialize (HL ltac:(assumption) ltac:(apply Nat.leb_le; assumption)).
     assert (HE : drepeat (mt tf (denote e)) rep == mt tf (drepeat (denote e) rep)).
     { destruct tf; simpl; [apply BTeq_sym; apply dtr_drepeat|apply BTeq_refl]. }
-    apply (acts_eq _ _ _ HE HL X HX).
+    destruct (Nat.eqb (nr (denote e)) (nc (denote e))) eqn:ESq.
+    + (* is_square: the repeated batches are folded into columns *)
+      pose proof (acts_batchrepeat_square (mm tf e) (mt tf (denote e)) rep HA) as HL.
+      rewrite mt_shape in HL. specialize (HL ltac:(assumption) ltac:(apply Nat.leb_le; assumption)).
+      apply (acts_eq _ _ _ HE HL X HX).
+    + (* rectangular: broadcasting of the base product; right when no batch dimension of size > 1 is really repeated *)
+      match goal with HO : _ || _ = true |- _ => simpl in HO end.
+      pose proof (acts_batchrepeat_rect (mm tf e) (mt tf (denote e)) rep HA) as HL.
+      rewrite mt_shape in HL. specialize (HL ltac:(assumption) ltac:(apply Nat.leb_le; assumption) ltac:(assumption)).
+      apply (acts_eq _ _ _ HE HL X HX).
   - (* Cat *) destruct ops as [|x ops]; [discriminate|]. destruct ops as [|x2 ops]; [discriminate|].
     assert (HA : forall y, In y (x :: x2 :: ops) -> forall t, acts (mm t y) (mt t (denote y))).
-    { intros y Hy t'. rewrite Forall_forall in H. apply (H y Hy); [eapply wfb_all_in; eauto|].
-      destruct d; try discriminate; eapply covered_all_in; eauto. }
-    destruct d; [apply acts_cat_rowsdir; assumption|apply acts_cat_colsdir; assumption|discriminate].
+    { intros y Hy t'. rewrite Forall_forall in H. apply (H y Hy); [eapply wfb_all_in; eauto|eapply covered_all_in; eauto]. }
+    destruct d; [apply acts_cat_rowsdir; assumption|apply acts_cat_colsdir; assumption|].
+    apply acts_cat_batchdir; [|assumption|exact HA].
+    unfold wf. cbn [wfb]. apply andb_true_iff; split; assumption.
   - (* Interpolated *) ihs. cbn [mm denote]. rewrite (sz_correct e) by assumption. unfold shp, sz_m, sz_n. cbn [fst snd].
     set (K := denote e) in *. set (Wl := dinterp li lv (nr K)). set (Wr := dinterp ri rv (nc K)).
     assert (B1 : bsh Wr = bsh Wl) by (unfold Wl, Wr; simpl; assumption).
